@@ -161,6 +161,8 @@ class FsSeam:
     def armed(self):
         if self.arm_steps is None:
             return True
+        if self.step == 0:
+            return 0 in self.arm_steps          # start-up of the incarnation (restart reconciliation)
         return self.in_step and self.step in self.arm_steps
 
     def effect(self, kind, path, wf=None):
